@@ -119,6 +119,14 @@ def applyOp (ord : Ord) (c : Circuit) (j : Json) : Except String (Circuit × Out
     | none => pure (c, .fuel, Json.null)
   | _ => throw s!"unknown construction op {op}"
 
+partial def varToJson : Var → Json
+  | .node s => jstr s
+  | .xorAux a b => Json.arr #[jstr "xor", varToJson a, varToJson b]
+  | .xorInv s => Json.arr #[jstr "xor_inv", jstr s]
+
+def clauseToJson (cl : Clause) : Json :=
+  jarr (fun (l : Lit) => Json.arr #[Json.bool l.pos, varToJson l.v]) cl
+
 def respond (o : Outcome) (extra : List (String × Json)) : Json :=
   Json.mkObj (("outcome", jstr o.toString) :: extra)
 
@@ -159,6 +167,13 @@ def handle (j : Json) : Except String Json := do
     let v := eval c order free
     pure (respond .ok [("true", jarr jstr (c.nodeNames.filter v)),
                        ("consistent", Json.bool (consistentB c v))])
+  | "cnf" =>
+    let c ← circuitOfJson (← j.getObjVal? "c")
+    match cnf c ord, idCalls c ord with
+    | .ok f, .ok calls =>
+      pure (respond .ok [("clauses", jarr clauseToJson f), ("pool", jarr varToJson (dedupVars calls))])
+    | .error e, _ => pure (respond e [])
+    | _, .error e => pure (respond e [])
   | "ord" =>
     pure (respond .ok [("r", jarr jstr (ord (getStrListD j "l")))])
   | _ => throw s!"unknown op {op}"
